@@ -85,7 +85,7 @@ def main():
     variants = sorted(set(r[0] for r in runs)); blds = {}
     for v in variants: blds[v] = build(v)
     env = dict(os.environ)
-    env["ASAN_OPTIONS"] = "exitcode=86:detect_leaks=0:halt_on_error=0:abort_on_error=0:allocator_may_return_null=1:detect_stack_use_after_return=0"
+    env["ASAN_OPTIONS"] = "quarantine_size_mb=48:exitcode=86:detect_leaks=0:halt_on_error=0:abort_on_error=0:allocator_may_return_null=1:detect_stack_use_after_return=0"
     env["UBSAN_OPTIONS"] = "print_stacktrace=0:halt_on_error=0"
     env["TSAN_OPTIONS"] = "halt_on_error=0:report_signal_unsafe=0"
     env["OMPI_ALLOW_RUN_AS_ROOT"] = "1"; env["OMPI_ALLOW_RUN_AS_ROOT_CONFIRM"] = "1"; env["OMPI_MCA_btl"] = "self,vader"
@@ -136,6 +136,8 @@ def main():
             else:
                 # crash (signal / sanitizer abort): a violation attributed to the last case started
                 sig = -j["rc"] if j["rc"] < 0 else j["rc"]
+                if j["rc"] == -9:    # SIGKILL comes from outside the process (the kernel's OOM killer): a resource limit of this machine, not a verdict
+                    exhaustive = False; notes.append("shard %s of %s was killed from outside (SIGKILL, out of memory?): everything after case '%s' in that shard was not explored" % (j["shard"], j["check"], (last or "?")[:200])); continue
                 fam = (last or "?").split(" ", 1)[-1]
                 key = "%s:crash:%s" % (j["check"], re.sub(r"[^A-Za-z0-9_+\-\[\]\(\),.:;=*<> ]", "?", fam)[:160])
                 viols.setdefault(key, dict(key=key, what="harness process died with status %s while executing this case" % sig, case=fam, count=0, variant=j["variant"], check=j["check"]))
@@ -186,7 +188,7 @@ def main():
         except Exception: cr = None
         if cr is None: engine_error = True; print("ENGINE-ERROR: conformance driver failed:", r.stdout[-500:], r.stderr[-500:])
         else:
-            conf_validated = cr["validated"]; counters["real_mpi_runs"] = cr["runs"]; counters["real_mpi_runs_validated"] = cr["validated"]; counters["real_mpi_distinct_outcomes"] = cr.get("distinct_real_outcomes", 0)
+            conf_validated = cr["validated"]; counters["real_mpi_runs"] = cr["runs"]; counters["real_mpi_runs_validated"] = cr["validated"]; counters["real_mpi_distinct_outcomes"] = cr.get("distinct_real_outcomes", 0); counters["real_mpi_runs_outside_instant_delivery_model"] = cr.get("unvalidated", 0)
             samples += cr["samples"][:2]
             for v in cr["violations"]:
                 e = viols.setdefault(v["key"], dict(key=v["key"], what=v["what"], case=v["case"], count=0, variant=plan["conformance"], check=pid)); e["count"] += 1
